@@ -2,7 +2,7 @@ SPECIFICATION Spec
 CONSTANTS
   ErrMsgs = {"e1"}
   WarnMsgs = {"w1"}
-  Contributing = {"schema", "refs", "params", "requiredDefs", "defaults", "referenced"}
+  Contributing = {"schema", "refs", "dupProps", "requiredDefs", "defaults", "referenced"}
 INVARIANTS Monotone WarningsNeverInvalidate ReturnedWarningsAreAttached SameWhenValid
 PROPERTY AlwaysReturns
 CHECK_DEADLOCK FALSE
